@@ -213,7 +213,7 @@ def one_call(world, d, st, opname, keep, fail_at):
     import spikeglx
     p = world.setup(d, st)
     rec = {"op": opname, "keep": bool(keep), "exc": "", "steps": [], "pre": st, "fail_at": fail_at, "ns": world.ns,
-           "resolved": {"bin": "skip", "cbin": "skip", "meta": "skip"}}
+           "resolved": {"bin": "skip", "cbin": "skip", "meta": "skip"}, "reopen": "skip"}
     entry_fs = world.project(d)
     sr = None
     with instrumented(world, d, opname, fail_at) as steps:
@@ -226,6 +226,17 @@ def one_call(world, d, st, opname, keep, fail_at):
             else:
                 sr.decompress_to_scratch(scratch_dir=Path(d) / "scratch")
             steps.append({"pt": "return", "fs": world.project(d)})
+            if opname in ("compress", "decompress"):
+                # "the current spikeglx.Reader object is modified in place": the same object, re-opened, must still
+                # expose the recording (whichever form it now points to)
+                try:
+                    sr.close()
+                    sr.open()
+                    same = sr.shape == (world.ns, world.nc) and np.array_equal(
+                        sr[:, :], world.data.astype(np.float32) * sr.sample2volts[None, :])
+                    rec["reopen"] = "ok" if same else f"wrong:shape={sr.shape}"
+                except Exception as e:  # noqa
+                    rec["reopen"] = f"raise:{type(e).__name__}"
         except Injected:
             pass
         except ValueError as e:
@@ -276,7 +287,7 @@ def resolve_record(world, d, st):
             res[e] = "none" if st.get(e, "C") in ("C",) else "skip"
             res[e + "_exc"] = f"{type(ex).__name__}: {ex}"
     return {"op": "resolve", "keep": True, "exc": "", "pre": st, "ns": world.ns, "fail_at": None,
-            "steps": [{"pt": "end", "fs": world.project(d)}],
+            "steps": [{"pt": "end", "fs": world.project(d)}], "reopen": "skip",
             "resolved": {k: res[k] for k in ("bin", "cbin", "meta")}, "detail": {k: v for k, v in res.items() if k.endswith("_exc")}}
 
 
@@ -299,7 +310,7 @@ def judge(ctx, traces, label):
         by_n.setdefault(-(-t["ns"] // CHUNK), []).append(i)
     for n, idx in sorted(by_n.items()):
         part = [{"op": traces[i]["op"], "keep": traces[i]["keep"], "steps": traces[i]["steps"],
-                 "resolved": traces[i]["resolved"], "steps_n": len(traces[i]["steps"])} for i in idx]
+                 "resolved": traces[i]["resolved"], "reopen": traces[i].get("reopen", "skip")} for i in idx]
         vs = tracecheck.validate(ctx, "trace/CompressTrace.tla", write_cfg(ctx, n), part, label=f"{label}{n}",
                                  nstates=nstates, jvms=4, workers=2)
         for v in vs:
